@@ -326,3 +326,7 @@ def dom_status_first(ctx, prog):
 dom_status_first.rule_id = "C08.DOM-status-first"
 
 RULES = [sib_writes, guard_value, dom_end, dtab_stable, dom_status_first]
+
+# control signature of the bookkeeping effects this property depends on (rules/ctrlsig.py)
+from .ctrlsig import make_rule as _ctrl_rule  # noqa: E402
+RULES.append(_ctrl_rule("C08"))
